@@ -81,7 +81,8 @@ pub fn valpat(u: &mut Unstructured) -> ValPat {
 }
 
 pub fn prov(u: &mut Unstructured) -> Prov {
-    match below(u, 19) {
+    match below(u, 20) {
+        19 => Prov::TruncThenPush(u16_(u)),
         16 => Prov::AddVec(below(u, NT as usize) as Tid),
         17 => Prov::SubNat(nat_ty(u)),
         18 => Prov::OrLonger(below(u, NT as usize) as Tid),
@@ -222,7 +223,8 @@ pub fn c17(u: &mut Unstructured) -> C17Case {
     let into_iter = bool_(u);
     let rev = bool_(u);
     let term = [Terminal::Count, Terminal::Last, Terminal::Collect, Terminal::Drain][below(u, 4)];
-    let ksel = |u: &mut Unstructured| match below(u, 12) {
+    let ksel = |u: &mut Unstructured| match below(u, 15) {
+        12..=14 => KSel::Frac(u16_(u)),
         0..=4 => KSel::Small(below(u, 6) as u8),
         5 => KSel::RemMinus1,
         6 => KSel::Rem,
